@@ -1,1 +1,2 @@
 CONSTANT MaxBatch = 4
+CONSTANT FrameCalls = 3
